@@ -56,7 +56,12 @@ def template_of(e, resolve=None, const=None, depth=0):
         return _merge(parts)
     if isinstance(e, ast.BinOp) and isinstance(e.op, ast.Add):
         l, r = template_of(e.left, resolve, const, depth + 1), template_of(e.right, resolve, const, depth + 1)
-        return _merge(l + r) if l is not None and r is not None else None
+        if l is None and r is None:
+            return None
+        # "prefix" + name: the operand that is not itself a template is a hole
+        l = l if l is not None else [Hole(e.left, "s")]
+        r = r if r is not None else [Hole(e.right, "s")]
+        return _merge(l + r)
     if isinstance(e, ast.Call) and isinstance(e.func, ast.Name) and e.func.id == "str" and len(e.args) == 1:
         return [Hole(e.args[0], "s")]
     if isinstance(e, ast.BinOp) and isinstance(e.op, ast.Mod):
